@@ -245,6 +245,22 @@ def rule_order(ctx, res):
               if eof else False, 'R-C10-order', q,
               'end-of-file trim present', '',
               'no end-of-file trim: blank lines at the end survive', f.loc)
+    # at the very start of the file the indent step above would leave the
+    # indentation in front of nothing: a blank-only run there is emptied
+    start = idx(lambda s: (s.guard.endswith(' == 0') or
+                           s.guard.startswith('0 == ')) and
+                s.repl_literal() == b'' and
+        not any(p[0] != 'lit' for p in s.repl) and
+        _matches_blank_run(s.pattern))
+    ind_steps = idx(lambda s: bool(s.repl) and s.repl[-1][0] == 'spaces')
+    if ind_steps:
+        res.check(bool(start) and start[0] > max(ind_steps), 'R-C10-order',
+                  q, 'a blank run at the start of the file is emptied after '
+                  'the indent steps', '',
+                  'no step empties a blank-only run at the start of the '
+                  'file: the output begins with the indentation the indent '
+                  'step put in front of the first token\'s line (a line of '
+                  'spaces / a first line that depends on the input)', f.loc)
     if trail:
         t = trail[0]
         res.check(bool(tab) and all(i < t for i in tab) and bool(cr) and
@@ -271,6 +287,18 @@ def rule_order(ctx, res):
     res.check(ok, 'R-C10-order', q, 'indentation = width * depth spaces',
               '{} steps insert the indentation'.format(len(ind)),
               'inserted indentation is not b" " * width * depth', f.loc)
+
+
+def _matches_blank_run(pattern):
+    """the pattern matches a whole run of spaces (` `, `   `) and the empty
+    run, anchored at both ends"""
+    import re
+    try:
+        rx_ = re.compile(pattern)
+    except re.error:
+        return False
+    return all(rx_.fullmatch(t) is not None for t in (b'', b' ', b'    ')) \
+        and rx_.fullmatch(b'x') is None and pattern.startswith(b'^')
 
 
 def _ends_at_dollar(pattern, flags=0):
